@@ -639,6 +639,22 @@ def analysis_stream(rng, tier):
                 for off in offs:
                     for kind in ("pro", "epi", "both"):
                         s.add("analyze %s %s %d" % (kind, hexs(b), off), tag="analysis:%s:%s:%d" % (arch, kind, c))
+            if arch == "a64":
+                # every byte offset (aligned or not: a pc is whatever the sampled thread's register says) into short
+                # sequences that begin with or contain branches, returns and the authenticated tail call
+                for seq in ([_mt.a_word(0x14000013), _mt.a_word(0xD61F0200), _mt.a_word(0xD71F0870), _mt.A_RET, _mt.A_RETAB] +
+                            [x + y for x in (_mt.a_word(0x14000013), _mt.a_word(0xD61F0200)) for y in (_mt.a_add_sp(0x20), _mt.A_RET)] + SEQ[:2]):
+                    for off in range(0, len(seq) + 1):          # (the hook, like the callers in macho.rs, requires off <= len)
+                        for kind in ("pro", "epi", "both"):
+                            s.add("analyze %s %s %d" % (kind, hexs(seq), off), tag="analysis:a64:%s:unaligned" % kind)
+            if arch == "a64":
+                # ... and the same instruction words at byte offsets 1, 2, 3 of the function (an unaligned pc reads them
+                # as its "next instruction"; fewer than four bytes lie in front of it)
+                for wd in (_mt.a_word(0x14000013), _mt.a_word(0xD61F0200), _mt.a_word(0xD71F0870), _mt.A_RET, _mt.a_add_sp(0x20), _mt.a_ldp_post(29, 30, 16)):
+                    for kpad in (1, 2, 3):
+                        seq = bytes([0x1f, 0x20, 0x03][:kpad]) + wd + _mt.A_RET
+                        for kind in ("pro", "epi", "both"):
+                            s.add("analyze %s %s %d" % (kind, hexs(seq), kpad), tag="analysis:a64:%s:unaligned-start" % kind)
             if rep == 0:
                 sl = Script(arch, "may"); sl.nomodel = True      # judged only: the model driver is slow on 64 KiB runs
                 # counters: more pushes / pops / stack adjustments than the accumulators can hold
